@@ -1,6 +1,7 @@
 import Lean.Data.Json
 import MetapypeModel.Model.Lex
 import MetapypeModel.Model.Validate
+import MetapypeModel.Model.Equal
 import MetapypeModel.Gen.Rules
 import MetapypeModel.Gen.Facts
 /-
@@ -111,6 +112,8 @@ def handle (j : Json) : Json :=
                   ("ew", .str (verdictStr (Lex.classRange 180 s))), ("ns", .str (verdictStr (Lex.classRange 90 s))),
                   ("nn", .str (verdictStr (Lex.classNonNeg s))), ("time", .str (verdictStr (Lex.classTime s))),
                   ("yd", .str (verdictStr (Lex.classYearDate s))), ("uri", .str (verdictStr (Lex.classUri s)))]
+  | some "isequal" =>
+      Json.bool (isEqual (getTree (fld j "a")) (getTree (fld j "b")))
   | some "tables" =>
       Json.mkObj [("rules", .arr (T.rules.map (fun r => Json.str r.name)).toArray),
                   ("mappings", .arr (T.mappings.map (fun kv => Json.arr #[.str kv.1, .str kv.2])).toArray),
